@@ -30,14 +30,25 @@ def parseVal (t : String) : Val :=
 
 def plusSplit (t : String) : List String := if t == "-" then [] else t.splitOn "+"
 
+/-- a matcher in a directive: what is not a boolean or a number is a fixed text (only generated for filters with regular
+expressions switched off) -/
+def parseMatcher (t : String) : Val :=
+  match parseVal t with
+  | .other => .dbg (str t)
+  | v => v
+
+/-- a recorded value: `d:<text>` is a value whose Debug output is `<text>` -/
+def parseValue (t : String) : Val :=
+  if t.startsWith "d:" then .dbg (str (t.drop 2).toString) else parseVal t
+
 def parseFields (t : String) : List (Str × Option Val) :=
   (plusSplit t).map fun f => match f.splitOn "=" with
-    | [n, v] => (str n, some (parseVal v))
+    | [n, v] => (str n, some (parseMatcher v))
     | _ => (str f, none)
 
 def parseVals (t : String) : List (Str × Val) :=
   (plusSplit t).filterMap fun f => match f.splitOn "=" with
-    | [n, v] => some (str n, parseVal v)
+    | [n, v] => some (str n, parseValue v)
     | _ => none
 
 def parseDirs : List String → Option (List DDir)
@@ -93,7 +104,8 @@ def run (spec : Bool) (toks : List String) : String :=
   match parseDirs (hd.drop 1) with
   | none => "bad-case"
   | some ds =>
-    let viaAdd := hd.head? == some "A"
+    -- `A` / `B`: one add_directive per directive (`B`, `Q`: regular expressions switched off — the same tables)
+    let viaAdd := hd.head? == some "A" || hd.head? == some "B"
     -- `ad D …`: a directive added to the running filter (`add_directive` on the value in place, behind a reload handle): the
     -- tables change, the matchers of the spans that exist and the levels already raised on the thread stay
     let rec go (ds : List DDir) (s : Sp) (acc : List String) : List (List String) → String
